@@ -201,6 +201,8 @@ func anyExpr(g *xgen.G, rt *rapid.T, ctx *xdoc.Node) (e xast.Expr, nodeSet bool)
 		return e, false
 	case 0, 1, 2, 3, 4, 5:
 		return anyNodeSetExpr(g, rt, ctx), true
+	case 14:
+		return mergedStateful(g, rt, ctx), true
 	case 6:
 		e, _ = g.BoolExpr(ctx, 2)
 		if xast.HasCall(e, "contains") {
@@ -275,6 +277,49 @@ func anyExpr(g *xgen.G, rt *rapid.T, ctx *xdoc.Node) (e xast.Expr, nodeSet bool)
 		return &xast.Call{Name: "count", Args: []xast.Expr{p}}, false
 	}
 	return &xast.Call{Name: "boolean", Args: []xast.Expr{p}}, false
+}
+
+// mergedStateful draws P/step[...] whose predicates combine a positional test with a nested path
+// that carries stacked predicates of its own (//x/a[position() < 3 and b[@q][2]], //x/a[b[@q][last()]][1]):
+// the step is evaluated parent by parent, and its condition holds counters of its own that sit in
+// neither a function argument nor the step's input.
+func mergedStateful(g *xgen.G, rt *rapid.T, ctx *xdoc.Node) xast.Expr {
+	outer := g.AxisPath(ctx, xgen.PathOpts{MaxSteps: 2, AbsShare: 4, DSlash: 3})
+	last := outer.Steps[len(outer.Steps)-1].(*xast.Step)
+	if last.Abbr && (last.Axis == "self" || last.Axis == "parent") {
+		last.Abbr = false
+	}
+	inner := g.RelPath(nil, 2, 0)
+	il := inner.Steps[len(inner.Steps)-1].(*xast.Step)
+	if il.Abbr && (il.Axis == "self" || il.Axis == "parent") {
+		il.Abbr = false
+	}
+	switch rapid.IntRange(0, 2).Draw(rt, "innerstack") {
+	case 0:
+		il.Preds = append(il.Preds, g.BoolPred(nil, 0), g.PosPred())
+	case 1:
+		il.Preds = append(il.Preds, g.PosPred(), g.BoolPred(nil, 0))
+	default:
+		il.Preds = append(il.Preds, g.PosPred())
+	}
+	var cond xast.Expr = inner
+	if rapid.IntRange(0, 3).Draw(rt, "innercmp") == 0 {
+		cond = &xast.Bin{Op: rapid.SampledFrom([]string{"=", "!="}).Draw(rt, "icop"), L: inner, R: &xast.Str{S: rapid.SampledFrom([]string{"", "1", "t"}).Draw(rt, "iclit")}}
+	}
+	pos := &xast.Bin{Op: rapid.SampledFrom([]string{"<", "<=", "=", ">", "!="}).Draw(rt, "mpop"), L: &xast.Call{Name: "position"}, R: g.PosN()}
+	switch rapid.IntRange(0, 4).Draw(rt, "mergeform") {
+	case 0:
+		last.Preds = append(last.Preds, &xast.Bin{Op: "and", L: pos, R: cond})
+	case 1:
+		last.Preds = append(last.Preds, &xast.Bin{Op: "or", L: cond, R: pos})
+	case 2:
+		last.Preds = append(last.Preds, cond, g.PosPred())
+	case 3:
+		last.Preds = append(last.Preds, g.PosPred(), cond)
+	default:
+		last.Preds = append(last.Preds, &xast.Bin{Op: "and", L: cond, R: pos})
+	}
+	return outer
 }
 
 func TestC04Rapid(t *testing.T) {
